@@ -8,7 +8,9 @@ from ..gen.common import gen_doc
 CTX_PROGS = ['a.$substringBefore("-")', 'list.s.$substringAfter("-")', '$pad(?, 5)("x")', '4 ~> $power(2)', 'a ~> $uppercase()', 'list.$string()', 'a.$length()', '$substring(?, 1)(a)',
              '(a ~> $substringBefore("-")) & "!"', 'list.s.$split("-")', 'a.$contains("-")', '$map(list.s, $uppercase)', '$sum(nums) ~> $string()', 'nums ~> $sort() ~> $reverse()',
              'a.$substringBefore($$.b.c.$substringBefore("z"))', 'nums^(>$)', 'list{s: $count($)}', '$ ~> |list|{"z": 1}|', '$.list[0] ~> |$|{"s": "changed"}, ["q"]|', '/a(b)/("xaby").groups',
-             '$replace(a, /-/, "+")', '( $f := function($x){$x * 2}; nums.$f($) )', '$reduce(nums, function($p,$q){$p + $q})', '$string($) & $string($)', '$keys($)', '$each($, function($v,$k){$k})', '$now() = $now()']
+             '$replace(a, /-/, "+")', 'a ~> $replace("-", "+", 1)', 'a ~> $replace("-", "+")', 'a ~> $substring(1, 3)', 'nums ~> $reduce(function($p,$q){$p+$q}, 100)',
+             '($f := function($a,$b,$c,$d){[$a,$b,$c,$d]}; a ~> $f(10, 20, 30))', '($f := function($a,$b,$c,$d,$e,$g){$a & $b & $c & $d & $e & $g}; a ~> $f(1,2,3,4,5))',
+             '($f := function($a,$b,$c,$d,$e,$g,$h){$a & $g & $h}; a ~> $f(1,2,3,4,5,6))', '($f := function($a,$b,$c,$d,$e,$g,$h,$i){$a & $h & $i}; a ~> $f(1,2,3,4,5,6,7))', 'a ~> $pad(20, "#") ~> $replace("#", "=", 2)', '( $f := function($x){$x * 2}; nums.$f($) )', '$reduce(nums, function($p,$q){$p + $q})', '$string($) & $string($)', '$keys($)', '$each($, function($v,$k){$k})', '$now() = $now()']
 
 def cases(tier, seed):
     rng = random.Random(seed)
